@@ -317,8 +317,8 @@ Proof.
   { apply forallb_forall. intros js Hjs.
     apply combine_map_self in Hjs. destruct Hjs as [Hin Hsnd]. apply in_parties in Hin.
     rewrite Hsnd. apply andb_true_intro. split.
-    - rewrite (fis0_false _ (Hsig _ Hin)). reflexivity.
-    - apply (fl_eqb K HK). unfold sigma_of. field. split; assumption. }
+    - unfold sigma_of. rewrite (fis0_false _ (Hsig _ Hin)). reflexivity.
+    - apply (fl_eqb K HK). unfold sigma_of. field. exact Hd. }
   rewrite Hall. cbn [negb].
   rewrite fold_map, Hs.
   rewrite (fis0_false _ Hr), (fis0_false _ (fdiv_nz _ _ Hmy Hg)). cbn [orb].
